@@ -152,6 +152,7 @@ Plan generate(uint64_t seed, uint64_t run, bool thorough) {
     if ((p.get("nt") > 4 || p.get("ncycle") > 1) && p.get("maxiter") > 30) p.set("maxiter", 30, 1);
     if (p.get("nt") > 8 && p.get("n") > 120) p.set("n", 120, 2);
     draw_schedule(r, p.sched, (int)p.get("nt"));
+    draw_vary_params(r, p, 0.4);
     p.sched.max_decisions = 2000000000ULL;     // long scripts of non-converging solves are legitimate; the wall-clock watchdog bounds them
     return p;
 }
@@ -210,7 +211,8 @@ static void run_script(const Plan &p, const Script &sc, Result &res) {
                     i, op.kind.c_str(), got.iters, got.resid, got.exc.c_str(), want.iters, want.resid, want.exc.c_str(), d)));
         }
         // invariants of single calls (checked on the fresh object's result so that they hold regardless of history)
-        if (k == O_SOLVE_ZERO_RHS && want.exc.empty() && p.get("solver") != 8) {     // preonly is not an iterative method: it returns P*rhs whatever P is
+        // (ns_search = true is the documented way to switch the trivial-solution exit off)
+        if (k == O_SOLVE_ZERO_RHS && want.exc.empty() && p.get("solver") != 8 && !sc.prm.get("solver.ns_search", false)) {     // preonly is not an iterative method: it returns P*rhs whatever P is
             bool allzero = true; for (size_t q = 0; q < want.x.size(); ++q) if (want.x[q] != 0) allzero = false;
             if (!allzero || want.iters != 0) res.fail(sig("zero-rhs-gives-zero", "zero-rhs", op.kind, fmt("iters=%.0f, x %s zero", want.iters, allzero ? "is" : "is not")));
         }
@@ -272,6 +274,9 @@ Result execute(const Plan &p) {
         prm.put("precond.allow_rebuild", sc.allow_rebuild);
         if (p.get("ncycle") > 1) prm.put("precond.max_levels", 4);      // a W-cycle over a deep hierarchy costs 2^levels
     }
+    std::string varied = sc.relax_only ? apply_vary_params(p, prm, "", "", "precond.", relax_names[relax], "solver.", solver_names[solver], nt == 1)
+                                       : apply_vary_params(p, prm, "precond.coarsening.", coarsening_names[coarsening], "precond.relax.", relax_names[relax], "solver.", solver_names[solver], nt == 1);
+    if (solver == 4 && !p.get("lgmres_keep")) prm.put("solver.always_reset", true);
     sim::RunStatus st = world(nt, p.sched, [&]() { if (sc.relax_only) run_script<RelaxSolver>(p, sc, res); else run_script<AmgSolver>(p, sc, res); });
     res.absorb(st); res.deviations = st.deviations;
     if (st.status) { Violation v; v.oracle = "world-terminates"; v.add("component", "amg"); v.add("clause", "deadlock-or-budget"); v.detail = st.blocked; res.fail(v); }
@@ -284,6 +289,7 @@ Result execute(const Plan &p) {
     js::Value s = js::Value::object();
     s.set("precond", sc.relax_only ? "relaxation" : "amg"); s.set("coarsening", coarsening_names[coarsening]); s.set("relax", relax_names[relax]); s.set("solver", solver_names[solver]); s.set("input", sc.input_mode ? "zero_copy_diagonal_first" : "copied");
     s.set("family", gen::family_name((int)p.get("family"))); s.set("n", n); s.set("nt", nt); s.set("maxiter", p.get("maxiter")); s.set("strategy", sim::strategy_name(p.sched.strategy));
+    if (!varied.empty()) { s.set("varied_parameters", varied); res.counts["varied_parameter_worlds"]++; }
     js::Value ops = js::Value::array(); for (size_t i = 0; i < p.ops.size(); ++i) { js::Value o = js::Value::array(); o.push(p.ops[i].kind); for (size_t k = 0; k < p.ops[i].a.size(); ++k) o.push(p.ops[i].a[k]); ops.push(o); }
     s.set("script", ops);
     res.sample = s;
